@@ -1,6 +1,7 @@
 //! The real jsonrpsee server stack in memory: `TowerService` per connection over `tokio::io::duplex`,
 //! a raw WebSocket peer (soketto client) with a dedicated reader task, and direct HTTP calls on the tower service.
 
+use tokio::io::{AsyncReadExt, AsyncWriteExt};
 use crate::runner::ticket;
 use bytes::Bytes;
 use futures_util::io::{BufReader, BufWriter};
@@ -352,5 +353,88 @@ impl RawWs {
 impl Drop for RawWs {
 	fn drop(&mut self) {
 		self.reader.abort();
+	}
+}
+
+/// A WebSocket peer that writes its own frames (FIN bit, opcode, masking by hand) and reads only when asked to: it never
+/// answers a ping by itself.
+pub struct FrameWs {
+	io: tokio::io::DuplexStream,
+	buf: Vec<u8>,
+}
+
+impl FrameWs {
+	pub async fn connect(mut io: tokio::io::DuplexStream, wait: Duration) -> Result<FrameWs, String> {
+		let req = "GET / HTTP/1.1\r\nHost: localhost\r\nUpgrade: websocket\r\nConnection: Upgrade\r\nSec-WebSocket-Key: dGhlIHNhbXBsZSBub25jZQ==\r\nSec-WebSocket-Version: 13\r\n\r\n";
+		io.write_all(req.as_bytes()).await.map_err(|e| e.to_string())?;
+		let mut buf = Vec::new();
+		let mut tmp = [0u8; 1024];
+		loop {
+			if let Some(p) = buf.windows(4).position(|w| w == b"\r\n\r\n") {
+				let head = String::from_utf8_lossy(&buf[..p]).to_string();
+				if !head.starts_with("HTTP/1.1 101") {
+					return Err(format!("upgrade refused: {}", head.lines().next().unwrap_or("")));
+				}
+				buf.drain(..p + 4);
+				return Ok(FrameWs { io, buf });
+			}
+			match tokio::time::timeout(wait, io.read(&mut tmp)).await {
+				Ok(Ok(n)) if n > 0 => buf.extend_from_slice(&tmp[..n]),
+				_ => return Err("no upgrade response".into()),
+			}
+		}
+	}
+
+	/// One masked client frame.
+	pub async fn send_frame(&mut self, fin: bool, opcode: u8, payload: &[u8]) -> bool {
+		let mut f = vec![(if fin { 0x80 } else { 0 }) | opcode];
+		let n = payload.len();
+		if n < 126 {
+			f.push(0x80 | n as u8);
+		} else if n < 65536 {
+			f.push(0x80 | 126);
+			f.extend_from_slice(&(n as u16).to_be_bytes());
+		} else {
+			f.push(0x80 | 127);
+			f.extend_from_slice(&(n as u64).to_be_bytes());
+		}
+		let key = [0x1f, 0x2e, 0x3d, 0x4c];
+		f.extend_from_slice(&key);
+		f.extend(payload.iter().enumerate().map(|(i, b)| b ^ key[i % 4]));
+		self.io.write_all(&f).await.is_ok()
+	}
+
+	/// Next server frame (unmasked): (opcode, payload); None when the connection is idle for `idle` or gone.
+	pub async fn recv_frame(&mut self, idle: Duration) -> Option<(u8, Vec<u8>)> {
+		let mut tmp = [0u8; 4096];
+		loop {
+			if self.buf.len() >= 2 {
+				let (mut at, len7) = (2usize, (self.buf[1] & 0x7f) as usize);
+				let len = match len7 {
+					126 if self.buf.len() >= 4 => {
+						at = 4;
+						Some(u16::from_be_bytes([self.buf[2], self.buf[3]]) as usize)
+					}
+					127 if self.buf.len() >= 10 => {
+						at = 10;
+						Some(u64::from_be_bytes(self.buf[2..10].try_into().unwrap()) as usize)
+					}
+					126 | 127 => None,
+					n => Some(n),
+				};
+				if let Some(len) = len {
+					if self.buf.len() >= at + len {
+						let opcode = self.buf[0] & 0x0f;
+						let payload = self.buf[at..at + len].to_vec();
+						self.buf.drain(..at + len);
+						return Some((opcode, payload));
+					}
+				}
+			}
+			match tokio::time::timeout(idle, self.io.read(&mut tmp)).await {
+				Ok(Ok(n)) if n > 0 => self.buf.extend_from_slice(&tmp[..n]),
+				_ => return None,
+			}
+		}
 	}
 }
